@@ -624,7 +624,14 @@ class OpsMixin:
                 kw["suffix"] = step["suffix"]
             if step.get("cross"):
                 return lt >> pdt.cross_join(rt, **kw)
-            return lt >> pdt.join(rt, ons, how, **kw)
+            given = list(ons)
+            try:
+                return lt >> pdt.join(rt, ons, how, **kw)
+            finally:
+                # the caller's `on` list is an object that existed before the call (C10): it may be
+                # a shared key list used for several joins
+                if "O10" in self.fam and (len(ons) != len(given) or any(a is not b for a, b in zip(ons, given, strict=False))):
+                    self.violate("C10", "O10.1", f"`join` changed the list that was passed as `on`: {[type(x).__name__ for x in given]} -> {[type(x).__name__ for x in ons]}", op="join", kind="argument_container")
 
         return self.produce(step, [l, r], model_fn, real_fn, subject="join")
 
